@@ -62,11 +62,14 @@ PROPS = {
     },
     "C04": {
         "modules": ["PgBifrost.Props.C04"],
-        "components": ["batcher", "batch", "filter", "partitioner", "marshal", "pipeline", "syscorr"],
+        "components": ["batcher", "batch", "filter", "partitioner", "marshal", "pipeline", "syscorr", "parser"],
+        # the record must carry the rendering of exactly the change PostgreSQL sent: a decoder (C09) or a renderer (C10)
+        # that alters or aliases the content breaks C04 as well
+        "counts_from": {"C09": ".", "C10": "."},
         "required_theorems": ["PgBifrost.Props.C04.batcher_partition_faithful", "PgBifrost.Props.C04.batch_single_key",
                               "PgBifrost.Props.C04.batch_txns_exact", "PgBifrost.Props.C04.txns_global_accounting",
                               "PgBifrost.Props.C04.batcher_never_dead", "PgBifrost.Props.C04.sys_exactly_once",
-                              "PgBifrost.Props.C04.sys_exactly_once_live"],
+                              "PgBifrost.Props.C04.sys_exactly_once_live", "PgBifrost.Props.C04.pipeline_exactly_once"],
         "partial": "the batcher/batches part is one unbounded theorem; the composition with filter, partitioner and marshaller "
                    "(each tied by its own correspondence; C08, C06, C10 theorems) and with the workers is decided by the pipeline "
                    "harness monitor Spec.Pipeline.exactlyOnce on the assembled real stages, not by one composed theorem",
@@ -177,10 +180,14 @@ PROPS = {
         "modules": ["PgBifrost.Props.C16"],
         "components": ["batcher", "batch", "batcherload"],
         "required_theorems": ["PgBifrost.Props.C16.tick_flushes_due", "PgBifrost.Props.C16.tick_pressure",
-                              "PgBifrost.Props.C16.tick_pressure_order"],
-        "partial": "the tick DECISION is proved for every open set, clock reading and Go map/heap order (validTick); that a tick is "
-                   "actually handled within one tick period of becoming due is Go's select/ticker (ticker competes with input in one "
-                   "select; not exhibited by the model) - the harness fires the real tick handler at chosen points and compares the flush set",
+                              "PgBifrost.Props.C16.tick_pressure_order", "PgBifrost.Props.C16.age_invariant",
+                              "PgBifrost.Props.C16.age_bound"],
+        "partial": "the tick DECISION is proved for every open set, clock reading and Go map/heap order (validTick), and the age bound "
+                   "in logical time (age_invariant / age_bound over Model/BatcherTimed: for every arrival pattern no open batch is overdue "
+                   "relative to the last handled tick, and an overdue batch is dispatched by the next one; the layer's create/modify-time "
+                   "bookkeeping is compared with the real batches at every tick of the batcher component). That a tick is actually "
+                   "handled within one tick period of becoming due is Go's select/ticker (ticker competes with input in one select; not "
+                   "exhibited by the model) - measured by the batcherload component on the free-running loop, not proved",
     },
     "C17": {
         "modules": ["PgBifrost.Props.C17"],
